@@ -7,7 +7,7 @@ REPO = "/tmp/repo-seedtest"
 env = dict(os.environ, GOFLAGS="-mod=mod", GOPROXY="off", GOSUMDB="off", GOTOOLCHAIN="local", VERIF_REPO=REPO)
 def sh(cmd): return subprocess.run(cmd, shell=True, capture_output=True, text=True, env=env)
 if not os.path.isdir(REPO): sh("git -C /repo worktree add --detach %s HEAD" % REPO)
-sh("git -C %s checkout -- ." % REPO)
+sh("git -C %s checkout -- . && git -C %s clean -fdq" % (REPO, REPO))
 r = sh("git -C %s apply %s" % (REPO, patch))
 if r.returncode: print("patch does not apply", r.stderr); sys.exit(2)
 try:
@@ -15,4 +15,4 @@ try:
         c = sh("cd /verif && bin/check %s --tier quick" % p)
         print("%s rc=%d %s" % (p, c.returncode, "quiet (ok)" if c.returncode == 0 else "ALARM" if c.returncode == 1 else "INCONCLUSIVE"), (c.stdout + c.stderr)[-300:] if c.returncode else "")
 finally:
-    sh("git -C %s checkout -- ." % REPO)
+    sh("git -C %s checkout -- . && git -C %s clean -fdq" % (REPO, REPO))
